@@ -197,6 +197,18 @@ type Matcher struct {
 	rootNonNil []string
 	written   map[string]bool
 	fieldCount map[string]string // writer: size key -> field label assigned from it (recv.RecordCount = len(items))
+	// per reader primitive that restores a field: did some joint path see the writer emit that field
+	// there, and did another see a default constant emitted instead (without the path implying the
+	// field is zero/empty)?
+	fieldAt map[*Prim]string
+	constAt map[*Prim]constEmit
+}
+
+type constEmit struct {
+	w     *Prim
+	wfr   *frame
+	rfr   *frame
+	label string
 }
 
 type state struct {
@@ -208,7 +220,8 @@ type state struct {
 func (x *Extractor) MatchFuncs(wf *core.FuncInfo, ws types.Object, rf *core.FuncInfo, rs types.Object, isPair func(w, r *types.Func) bool, maxDepth int) *Result {
 	m := &Matcher{X: x, Res: &Result{Pairs: map[string]bool{}}, seen: map[string]bool{}, failSeen: map[string]bool{}, Budget: 400000,
 		MaxDepth: maxDepth, IsPair: isPair, primPos: map[token.Pos]bool{}, atomUse: map[string]int{}, depthOf: map[*frame]int{},
-		splices: map[Node][]Node{}, frames: map[string]*frame{}, primCalls: map[*Prim]*Call{}, written: map[string]bool{}, fieldCount: map[string]string{}}
+		splices: map[Node][]Node{}, frames: map[string]*frame{}, primCalls: map[*Prim]*Call{}, written: map[string]bool{}, fieldCount: map[string]string{},
+		fieldAt: map[*Prim]string{}, constAt: map[*Prim]constEmit{}}
 	wfr := m.rootFrame(wf, ws)
 	rfr := m.rootFrame(rf, rs)
 	m.countAtoms(wfr)
@@ -221,6 +234,13 @@ func (x *Extractor) MatchFuncs(wf *core.FuncInfo, ws types.Object, rf *core.Func
 	}
 	m.run(st)
 	m.Res.Prims = len(m.primPos)
+	// a field that the writer emits on some paths and replaces by a default constant on others, while
+	// the reader restores the field from that position either way: the value is lost on those paths
+	for rp, ce := range m.constAt {
+		if fl, ok := m.fieldAt[rp]; ok && fl == ce.label {
+			m.fail("omission", ce.w, rp, ce.wfr, ce.rfr, "field %s is written at this position on some paths but replaced by a constant default on this one, and nothing on this path implies the field is zero/empty: its value is silently not written (the reader restores the default)", fl)
+		}
+	}
 	return m.Res
 }
 
@@ -794,6 +814,18 @@ func isFieldLabel(l string) bool {
 }
 
 func (m *Matcher) checkLabels(st state, w, r Node, wl, rl string, wfr, rfr *frame, discard bool) {
+	if rp, ok := r.(*Prim); ok && isFieldLabel(rl) && !discard {
+		if wp, ok := w.(*Prim); ok {
+			switch {
+			case isFieldLabel(wl) && wl == rl:
+				m.fieldAt[rp] = rl
+			case !isFieldLabel(wl) && isDefaultConst(wp) && !m.impliedZero(st.e, rl):
+				if _, had := m.constAt[rp]; !had {
+					m.constAt[rp] = constEmit{w: wp, wfr: wfr, rfr: rfr, label: rl}
+				}
+			}
+		}
+	}
 	if isFieldLabel(wl) {
 		if discard {
 			m.fail("dropped", w, r, wfr, rfr, "field %s is written but the reader discards the value read at this position", wl)
@@ -806,6 +838,32 @@ func (m *Matcher) checkLabels(st state, w, r Node, wl, rl string, wfr, rfr *fram
 			}
 		}
 	}
+}
+
+// isDefaultConst: the writer emits a literal default here (0, false, "", nil, empty literal).
+func isDefaultConst(p *Prim) bool {
+	if p.Const != nil {
+		switch p.Const.Kind() {
+		case constant.Int:
+			n, ok := constInt(p.Const)
+			return ok && n == 0
+		case constant.Bool:
+			return !constant.BoolVal(p.Const)
+		case constant.String:
+			return constant.StringVal(p.Const) == ""
+		}
+		return false
+	}
+	if p.Arg == nil {
+		return false
+	}
+	switch v := ast.Unparen(p.Arg).(type) {
+	case *ast.Ident:
+		return v.Name == "nil"
+	case *ast.CompositeLit:
+		return len(v.Elts) == 0
+	}
+	return false
 }
 
 // ---------------------------------------------------------------------------------------------
